@@ -294,7 +294,7 @@ def main(argv):
     # discharged this way; a change under a search-only clause stays a broken obligation.
     reproved = []
     full_rx = registry.REG.get(pid, {}).get('full_roots', [])
-    if broken and full_rx and st.get('driver') and ps['ok'] and not os.environ.get('VERIF_NO_REPROVE'):
+    if broken and full_rx and st.get('driver') and ps['ok'] and not fresh and not os.environ.get('VERIF_NO_REPROVE'):      # (a failing input settles it: no need to re-prove)
         def covered(b):
             rs = [r for r in roots if b in pipeline.closure(gen_defs, [r])] + [r for r in model_roots if b in pipeline.closure(model_defs, [r])]
             return bool(rs) and all(any(re.search(rx, r) for rx in full_rx) for r in rs)
